@@ -16,9 +16,10 @@ def harnesses(tier):
                        bounds='4-object slabs, <= 2 live slabs, any use count 0..999, any fill level',
                        desc='protocol step %s from an arbitrary valid protocol state' % op))
     if tier == 'thorough':
-        hs.append(dict(name='c18_step_token_new_realslab', src='c18/proto.c', defs=dict(OP=1, NOBJ=1024),
+        # the real 1024-object slab has no verdict (14 GB, measured): a 64-object slab is the deepest that completes
+        hs.append(dict(name='c18_step_token_new_slab64', src='c18/proto.c', defs=dict(OP=1, NOBJ=64),
                        units=['repo:object_pool.c', 'repo:stack.c'], unwind=6, timeout=3000, mem_gb=14, backend='cadical',
-                       bounds='real 1024-object slabs', desc='allocation step at the real slab size'))
+                       bounds='64-object slabs (through the MMD6_VERIF_POOL_OBJECTS hook)', desc='allocation step at a 64-object slab'))
     return hs
 
 CLAIM = dict(
